@@ -232,6 +232,8 @@ func runProperty(P *Program, pf *PropFile, findings *FindingsFile, timeout int, 
 	wg.Wait()
 
 	generated := map[string]bool{}
+	smokeReach := map[string]int{}
+	smokeDead := map[string]int{}
 	replayDir := filepath.Join(verifDir, "out", "replay", pf.ID)
 	if o := os.Getenv("PIKEVC_OUT"); o != "" {
 		replayDir = filepath.Join(o, "replay", pf.ID)
@@ -294,12 +296,13 @@ func runProperty(P *Program, pf *PropFile, findings *FindingsFile, timeout int, 
 				switch r.Answer.Result {
 				case "sat":
 					rep.Vacuity[o.Name] = "reachable"
+					smokeReach[fr.key]++
 				case "unsat":
-					rep.Vacuity[o.Name] = "UNREACHABLE"
-					rep.Broken = true
-					rep.Lines = append(rep.Lines, fmt.Sprintf("CHECK-ERROR property=%s vacuity: %s is unreachable under the assumptions (contradictory contract?)", pf.ID, o.Name))
+					rep.Vacuity[o.Name] = "unreachable exit"
+					smokeDead[fr.key]++
 				default:
 					rep.Vacuity[o.Name] = "inconclusive(" + r.Answer.Result + ")"
+					smokeReach[fr.key]++
 				}
 				continue
 			case "canary":
@@ -371,6 +374,13 @@ func runProperty(P *Program, pf *PropFile, findings *FindingsFile, timeout int, 
 				violation(o.Name, why, payload, hasInput)
 			}
 			rep.Checked = append(rep.Checked, co)
+		}
+	}
+	// vacuity: a function none of whose exits is reachable under its assumptions has a contradictory contract
+	for k, dead := range smokeDead {
+		if dead > 0 && smokeReach[k] == 0 {
+			rep.Broken = true
+			rep.Lines = append(rep.Lines, fmt.Sprintf("CHECK-ERROR property=%s vacuity: no exit of %s is reachable under the assumptions (contradictory contract?)", pf.ID, shortKey(k)))
 		}
 	}
 	// pinned obligations must still be generated
